@@ -464,6 +464,75 @@ def rule_R4(ck):
         ck.violation("deferred::Deferred.length", f"length of an unsized deferred chunk is {ps[0].value!r}, expected len(its value)", construct="Deferred.length")
 
 
+def rule_R4c(ck):
+    """Concatenation algebra of byte chunks (the image is built with `data += chunk`): for every combination of plain bytes,
+    sized chunks, unsized chunks and concatenations, x + y evaluates to value(x) followed by value(y) and its length is the
+    sum of the lengths - with the real classes, abstractly executed on symbolic chunk contents."""
+    repo = ck.repo
+    I = eager_interp(repo)
+    I.summaries = {"reports::emit_report": I.summaries["reports::emit_report"]}
+    where = "deferred::Concatenator.__add__"
+    S1, S2 = sym.var("S1", "int"), sym.var("S2", "int")
+    VA, VB, VD = sym.var("VA", "bytes"), sym.var("VB", "bytes"), sym.var("VD", "bytes")
+
+    def mk(kind):
+        bt = I.builtin_types["bytes"]
+        SD, D, C = (I.module_get("deferred", n) for n in ("SizedDeferred", "Deferred", "Concatenator"))
+        if kind == "ab":
+            return b"ab", b"ab", 2
+        if kind == "cd":
+            return b"cd", b"cd", 2
+        if kind == "empty":
+            return b"", b"", 0
+        if kind == "a":
+            return I.instantiate(SD, [bt, S1, PyFn(lambda I_, a_, k_: VA)], {}), VA, S1
+        if kind == "b":
+            return I.instantiate(SD, [bt, S2, PyFn(lambda I_, a_, k_: VB)], {}), VB, S2
+        if kind == "d":
+            return I.instantiate(D, [bt, PyFn(lambda I_, a_, k_: VD)], {}), VD, sym.op("len", VD)
+        parts = [mk(k) for k in kind]
+        return I.instantiate(C, [bt, [p_[0] for p_ in parts]], {}), _cat([p_[1] for p_ in parts]), _sum([p_[2] for p_ in parts])
+
+    def _cat(xs):
+        out = b""
+        for x in xs:
+            out = sym.cat(out, x)
+        return out
+
+    def _sum(xs):
+        out = 0
+        for x in xs:
+            out = sym.add(out, x)
+        return out
+    cases = [(("ab", "a"), "cd"), (("a", "ab"), "cd"), ("cd", ("ab", "a")), ("cd", ("a", "ab")), (("a", "ab"), ("cd", "d")), (("ab", "a"), ("d", "cd")), (("ab", "a"), ("b", "cd")),
+             ("a", "cd"), ("cd", "a"), ("a", "d"), ("a", "empty"), ("empty", "a"), (("a", "ab"), "empty"), ("empty", ("ab", "a")), (("ab", "a", "cd"), ("ab", "b", "cd")), (("a", "b"), "d"), ("d", ("a", "b"))]
+    for lhs, rhs in cases:
+        def thunk(lhs=lhs, rhs=rhs):
+            x, vx, lx = mk(lhs)
+            y, vy, ly = mk(rhs)
+            r = I.binop(ast.Add(), x, y)
+            wait = I.module_get("deferred", "wait")
+            length = I.call(wait, [I.call_method(r, "length", [])], {}) if isinstance(r, Rec) else len(r)
+            return I.call(wait, [r], {}), length, sym.cat(vx, vy), sym.add(lx, ly)
+        try:
+            ps = I.explore(thunk)
+        except Unsupported as ex:
+            raise Unknown(f"{lhs} + {rhs}: {ex}") from None
+        gen = [p_ for p_ in ps if all(v for k, v in p_.decisions)] or ps
+        p_ = gen[0]
+        name = f"{lhs!r} + {rhs!r}".replace("'", "")
+        ck.instance(("concat", name), {"operands (ab/cd bytes, a/b sized chunks, d unsized chunk, tuples: concatenations)": name, "value": repr(p_.value[0]) if p_.kind == "return" else repr(p_.value)}, fn=where)
+        if p_.kind != "return":
+            ck.violation(where, f"{name} raises {p_.value!r} {getattr(p_.value, 'args', '')}", construct="concatenation algebra")
+            continue
+        val, ln, wv, wl = p_.value
+        if val != wv:
+            ck.violation(where, f"{name} (ab/cd: bytes, a/b: sized chunks, d: an unsized chunk, tuples: concatenations) evaluates to {val!r}, expected {wv!r}: bytes of the image are lost, doubled or reordered",
+                         construct="concatenation algebra", expected=repr(wv), found=repr(val))
+        elif ln != wl:
+            ck.violation(where, f"{name}: the length of the concatenation is {ln!r}, its value has {wl!r} bytes: every later address is off", construct="concatenation length", expected=repr(wl), found=repr(ln))
+
+
 def rule_R6(ck):
     repo = ck.repo
     where = "compiler::Compiler.compile_include"
@@ -629,6 +698,7 @@ def run(ck):
     ck.run_rule("C02.R3", "'.' and label values are the running address before the statement", 5, rule_R3)
     ck.run_rule("C02.R3b", "compile_block: statement and label addresses, concatenation (abstract execution)", 2, rule_R3b)
     ck.run_rule("C02.R4", "length() siblings agree with the values they describe", 4, rule_R4)
+    ck.run_rule("C02.R4c", "concatenation algebra of chunks: value(x + y) = value(x) value(y), length additive (17 operand shapes)", 17, rule_R4c)
     ck.run_rule("G1", "deferred thunks capture by value", 20, thunks.rule_G1)
     ck.run_rule("C02.R6", "address continuation across included and linked files", 3, rule_R6)
     from ..rules import treeimm
